@@ -170,14 +170,17 @@ impl Exec for OwnExec {
                     };
                     assert!(p != libc::MAP_FAILED, "harness: mmap");
                     raw_ptr = p as usize;
-                    unsafe {
-                        MmapRegionBuilder::<()>::new(SIZE)
-                            .with_raw_mmap_pointer(p as *mut u8)
-                            .with_mmap_prot(libc::PROT_READ | libc::PROT_WRITE)
-                            .with_mmap_flags(libc::MAP_SHARED)
-                            .build()
-                            .expect("harness: build raw")
-                    }
+                    // how the caller describes its own mapping to the builder is informational only - whatever it says,
+                    // a mapping handed over as a raw pointer stays the caller's: 0 = its true flags, 1 = nothing (the
+                    // builder's defaults, which name an anonymous private mapping), 2 = flags and the file it maps
+                    let var = line["a"]["var"].as_u64().unwrap_or(self.counter as u64) % 3;
+                    let b = MmapRegionBuilder::<()>::new(SIZE).with_mmap_prot(libc::PROT_READ | libc::PROT_WRITE);
+                    let b = match var {
+                        0 => b.with_mmap_flags(libc::MAP_SHARED),
+                        1 => b,
+                        _ => b.with_mmap_flags(libc::MAP_SHARED).with_file_offset(FileOffset::from_arc(f.clone(), 0)),
+                    };
+                    unsafe { b.with_raw_mmap_pointer(p as *mut u8).build().expect("harness: build raw") }
                 } else {
                     MmapRegionBuilder::<()>::new(SIZE)
                         .with_file_offset(FileOffset::from_arc(f.clone(), 0))
